@@ -19,6 +19,7 @@ import (
 	"time"
 
 	"github.com/paulmach/orb"
+	"github.com/paulmach/orb/geojson"
 	"github.com/paulmach/osm"
 	"github.com/paulmach/osm/annotate"
 	"github.com/paulmach/osm/osmgeojson"
@@ -782,6 +783,19 @@ func (in *input) build(src int, orients []int64) *osm.OSM {
 
 // ---------------------------------------------------------------- encoding
 
+// implPanic records a panic of the implementation ("" = none); set by guard.
+var implPanic string
+
+// guard runs f and turns a panic of the implementation into a recorded failure.
+func guard(f func()) {
+	defer func() {
+		if r := recover(); r != nil {
+			implPanic = fmt.Sprint(r)
+		}
+	}()
+	f()
+}
+
 var dropped int // holes not reachable from the kernel by two clear legs
 
 var nonInteger bool
@@ -863,7 +877,9 @@ type runObs struct {
 
 func doRun(in *input, src int, incl bool, orients []int64) runObs {
 	o := in.build(src, orients)
-	fc, err := osmgeojson.Convert(o, osmgeojson.IncludeInvalidPolygons(incl))
+	var fc *geojson.FeatureCollection
+	err := fmt.Errorf("panic")
+	guard(func() { fc, err = osmgeojson.Convert(o, osmgeojson.IncludeInvalidPolygons(incl)) })
 	ob := runObs{src: src, incl: incl, orients: orients}
 	if err != nil {
 		ob.nfeat = -1
@@ -898,8 +914,11 @@ type annotObs struct {
 func doAnnot(in *input, orients []int64) annotObs {
 	o := in.build(1, orients)
 	r := o.Relations[0]
-	err := annotate.Relations(context.Background(), osm.Relations{r},
-		(&osm.OSM{Ways: o.Ways}).HistoryDatasource(), annotate.Threshold(time.Hour))
+	err := fmt.Errorf("panic")
+	guard(func() {
+		err = annotate.Relations(context.Background(), osm.Relations{r},
+			(&osm.OSM{Ways: o.Ways}).HistoryDatasource(), annotate.Threshold(time.Hour))
+	})
 	a := annotObs{in: orients, ok: err == nil}
 	for _, m := range r.Members {
 		a.out = append(a.out, int64(m.Orientation))
@@ -1069,6 +1088,13 @@ func sceneCase(in *input, runs []runObs, annots []annotObs) *wire.Case {
 		c.OracleFail = "output contains a coordinate that is not an input coordinate (non-integer / out of range)"
 	}
 	nonInteger = false
+	if implPanic != "" {
+		if in.spec != nil {
+			c.OracleFail = "the implementation panicked: " + implPanic
+		}
+		desc["panic"] = implPanic
+		implPanic = ""
+	}
 	c.Desc = desc
 	return c
 }
@@ -1213,7 +1239,8 @@ func joinCase(segs []osmgeojson.VerifSegment, corrupt bool) *wire.Case {
 		encSeg(c, s)
 		in = append(in, segJSON(s))
 	}
-	chains := osmgeojson.VerifJoin(segs)
+	var chains [][]osmgeojson.VerifSegment
+	guard(func() { chains = osmgeojson.VerifJoin(segs) })
 	if corrupt && len(chains) > 0 {
 		chains[0][0].Reversed = !chains[0][0].Reversed
 	}
@@ -1230,7 +1257,11 @@ func joinCase(segs []osmgeojson.VerifSegment, corrupt bool) *wire.Case {
 	c.Len(len(chains))
 	var obs []interface{}
 	for _, ch := range chains {
-		a, b, o := osmgeojson.VerifRing(ch, orb.CCW), osmgeojson.VerifRing(ch, orb.CW), osmgeojson.VerifOrientation(ch)
+		var a, b orb.Ring
+		var o orb.Orientation
+		guard(func() {
+			a, b, o = osmgeojson.VerifRing(ch, orb.CCW), osmgeojson.VerifRing(ch, orb.CW), osmgeojson.VerifOrientation(ch)
+		})
 		encOrbLine(c, a)
 		encOrbLine(c, b)
 		c.Int(int64(o))
@@ -1238,6 +1269,10 @@ func joinCase(segs []osmgeojson.VerifSegment, corrupt bool) *wire.Case {
 	}
 	c.Desc = map[string]interface{}{"segments": in, "joined": out, "per_chain": obs}
 	nonInteger = false
+	if implPanic != "" && !corrupt {
+		c.OracleFail = "Join panicked: " + implPanic
+	}
+	implPanic = ""
 	return c
 }
 
@@ -1300,7 +1335,8 @@ func containsCase(outer orb.Ring, r orb.Ring, corrupt bool) *wire.Case {
 	c.Int(3)
 	encOrbLine(c, outer)
 	encOrbLine(c, r)
-	got := osmgeojson.VerifPolygonContains(outer, r)
+	var got bool
+	guard(func() { got = osmgeojson.VerifPolygonContains(outer, r) })
 	if corrupt {
 		got = !got
 	}
@@ -1340,7 +1376,8 @@ func addmpCase(rng *rand.Rand, corrupt bool) *wire.Case {
 		mp = append(mp, poly)
 	}
 	ring := randomRing(rng, 10)
-	got := osmgeojson.VerifAddToMultiPolygon(mp, ring, incl)
+	var got orb.MultiPolygon
+	guard(func() { got = osmgeojson.VerifAddToMultiPolygon(mp, ring, incl) })
 	if corrupt {
 		got = append(got, orb.Polygon{nil})
 	}
@@ -1538,7 +1575,9 @@ func doMultiRun(m *multi, src int, incl bool, orients [][]int64) multiRun {
 		o.Relations = append(o.Relations, m.rels[k].build(src, orients[k]).Relations[0])
 	}
 	mr := multiRun{src: src, incl: incl}
-	fc, err := osmgeojson.Convert(o, osmgeojson.IncludeInvalidPolygons(incl))
+	var fc *geojson.FeatureCollection
+	err := fmt.Errorf("panic")
+	guard(func() { fc, err = osmgeojson.Convert(o, osmgeojson.IncludeInvalidPolygons(incl)) })
 	if err != nil {
 		mr.nfeat = -1
 	} else {
@@ -1669,6 +1708,13 @@ func multiCase(rng *rand.Rand, m *multi, corrupt bool) *wire.Case {
 		c.OracleFail = "output contains a coordinate that is not an input coordinate"
 	}
 	nonInteger = false
+	if implPanic != "" {
+		if !corrupt {
+			c.OracleFail = "the implementation panicked: " + implPanic
+		}
+		desc["panic"] = implPanic
+		implPanic = ""
+	}
 	c.Desc = desc
 	return c
 }
@@ -1722,8 +1768,11 @@ func historyCases(rng *rand.Rand, in1 *input) []*wire.Case {
 	r1, r2 := o1.Relations[0], o2.Relations[0]
 	r1.Timestamp, r1.ChangesetID = t0.Add(day), 15
 	r2.Version, r2.Timestamp, r2.ChangesetID = 2, t0.Add(3*day), 25
-	err := annotate.Relations(context.Background(), osm.Relations{r1, r2},
-		(&osm.OSM{Ways: ways}).HistoryDatasource(), annotate.Threshold(time.Hour))
+	err := fmt.Errorf("panic")
+	guard(func() {
+		err = annotate.Relations(context.Background(), osm.Relations{r1, r2},
+			(&osm.OSM{Ways: ways}).HistoryDatasource(), annotate.Threshold(time.Hour))
+	})
 	var out []*wire.Case
 	for k, pr := range []struct {
 		in *input
@@ -1943,13 +1992,23 @@ func main() {
 		in := cutScene(rng, g, func(ring, n int) int { return 2 })
 		n := len(in.members)
 		// (a) geometry: the hole is dropped from the observed polygon
+		// (a canary must not depend on the implementation being right: a well-formed observation
+		// is fabricated from the ground truth when the implementation returned something else)
+		wellFormed := func(r *runObs) {
+			if len(r.polys) < 1 || len(r.polys[0]) < 2 || len(r.polys[0][0]) < 4 {
+				r.kind, r.nfeat, r.tainted = 1, 1, false
+				r.polys = orb.MultiPolygon{orb.Polygon{closedOrb(g[0].outer), closedOrb(reversed(g[0].holes[0]))}}
+			}
+		}
 		r := doRun(in, 0, false, zeros(n))
+		wellFormed(&r)
 		r.polys = orb.MultiPolygon{orb.Polygon{r.polys[0][0]}}
 		c := sceneCase(in, []runObs{r}, nil)
 		c.Canary, c.Class, c.OracleFail = 1, "", ""
 		w.Add(c)
 		// (b) geometry: two vertices of the outer ring swapped
 		r = doRun(in, 1, false, zeros(n))
+		wellFormed(&r)
 		ring := append(orb.Ring(nil), r.polys[0][0]...)
 		ring[1], ring[2] = ring[2], ring[1]
 		r.polys = orb.MultiPolygon{orb.Polygon{ring, r.polys[0][1]}}
@@ -1958,12 +2017,19 @@ func main() {
 		w.Add(c)
 		// (c) annotate: one orientation flipped
 		an := doAnnot(in, zeros(n))
+		if len(an.out) == 0 {
+			an.out = zeros(n)
+		}
 		an.out[0] = -an.out[0]
+		if an.out[0] == 0 {
+			an.out[0] = 5
+		}
 		c = sceneCase(in, nil, []annotObs{an})
 		c.Canary, c.Class, c.OracleFail = 1, "", ""
 		w.Add(c)
 		// (d) tainted flag flipped
 		r = doRun(in, 2, false, zeros(n))
+		wellFormed(&r)
 		r.tainted = true
 		c = sceneCase(in, []runObs{r}, nil)
 		c.Canary, c.Class, c.OracleFail = 1, "", ""
